@@ -10,6 +10,10 @@ Streams (both layouts: flat_hash.database and flat_hash.md5_cache)
   crash   a simulated crash before every mutating call k of a store over a pre-existing cache
           directory, then cache[cpv], every other entry and sorted(cache.keys()) by a fresh
           cache object                                                  impl vs Model_C27.run_crash (A)
+          -- twice: (i) harness/fsx.py: exception raised inside the process, file objects unbuffered
+          (every character handed to writelines is a crash point); (ii) HARD KILL: the store runs in
+          a forked child with its real buffering and is killed by os._exit before each recorded call
+          (create / buffered write / close / chown / chmod / rename), so text still in the buffer is lost
           (B) directly on the observations: cache[cpv] is the old or the complete new result,
           other entries are unchanged, every listed key was listed before or is cpv with the
           complete new entry, no previously listed key disappears.
@@ -248,6 +252,226 @@ def mutate(rng, text, lay):
     return text.upper() if rng.random() < 0.3 else text.replace("=", "", 1)
 
 
+# ------------------------------------------------------------------ hard-kill crash points (reusable)
+# harness/fsx.py simulates a crash by raising inside the process and makes file objects unbuffered,
+# so (a) `with`/`finally` blocks still run and flush, (b) buffered data is never lost.  A real
+# crash (power cut, SIGKILL) loses whatever still sits in a Python file object's buffer.  The
+# helpers below record the mutating SYSTEM-LEVEL calls of a code block WITHOUT touching its
+# buffering and can kill the process (os._exit in a forked child) right before call k.
+# Reusable as is by other properties whose code stages a file and renames it (AtomicWriteFile
+# users: C24, C28, C30):   trace = trace_syscalls(fn, root);  rc = run_hard_kill(fn, root, k)
+KILL_RC = 99
+_OS_PATCHED = ("mkdir", "rename", "replace", "chown", "lchown", "chmod", "utime", "remove", "unlink", "rmdir",
+               "link", "symlink", "truncate")
+
+
+class SysCall:
+    __slots__ = ("kind", "paths", "args", "ok", "data", "mode")
+
+    def __init__(self, kind, paths, args):
+        self.kind, self.paths, self.args, self.ok, self.data, self.mode = kind, paths, args, True, None, None
+
+    def __repr__(self):
+        extra = "" if self.data is None else f" flushed={self.data[:30]!r}"
+        return f"{self.kind}({', '.join('/'.join(p) if p is not None else '?' for p in self.paths)}){extra}" + ("" if self.ok else " FAILED")
+
+
+class _FileProxy:
+    """a writable file object under root: same buffering as the real one; write()/writelines() are
+    recorded as 'bwrite' (data handed to the buffer: no system call), flush()/close()/__exit__ as
+    'flush'/'close' together with the bytes that really reached the file at that point"""
+
+    def __init__(self, tr, f, path):
+        object.__setattr__(self, "_tr", tr)
+        object.__setattr__(self, "_f", f)
+        object.__setattr__(self, "_path", path)
+
+    def __getattr__(self, name):
+        return getattr(self._f, name)
+
+    def __enter__(self):
+        return self
+
+    def __iter__(self):
+        return iter(self._f)
+
+    def _sync_point(self, kind, action):
+        c = self._tr.before(kind, [self._path], ())
+        size = os.path.getsize(self._path) if os.path.exists(self._path) else 0
+        try:
+            r = action()
+        except BaseException:
+            c.ok = False
+            raise
+        finally:
+            try:
+                with self._tr.real_open(self._path, "rb") as g:
+                    g.seek(size)
+                    c.data = g.read().decode("utf8", "surrogateescape")
+            except OSError:
+                c.data = ""
+        return r
+
+    def write(self, data):
+        self._tr.before("bwrite", [self._path], (data,))
+        return self._f.write(data)
+
+    def writelines(self, lines):
+        lines = list(lines)
+        self._tr.before("bwrite", [self._path], ("".join(lines),))
+        return self._f.writelines(lines)
+
+    def flush(self):
+        return self._sync_point("flush", self._f.flush)
+
+    def close(self):
+        if self._f.closed:
+            return None
+        return self._sync_point("close", self._f.close)
+
+    def __exit__(self, *a):
+        if self._f.closed:
+            return self._f.__exit__(*a)
+        return self._sync_point("close", lambda: self._f.__exit__(*a))
+
+
+class SyscallTrace:
+    def __init__(self, root, kill_at=None):
+        self.root = os.path.realpath(root)
+        self.kill_at = kill_at
+        self.trace = []
+
+    def rel(self, path):
+        try:
+            path = os.fspath(path)
+        except TypeError:
+            return None
+        if isinstance(path, bytes):
+            path = os.fsdecode(path)
+        d, b = os.path.split(os.path.abspath(path))
+        full = os.path.join(os.path.realpath(d), b) if b else os.path.realpath(d)
+        if full == self.root:
+            return ()
+        if not full.startswith(self.root + os.sep):
+            return None
+        return tuple(full[len(self.root) + 1:].split(os.sep))
+
+    def before(self, kind, paths, args):
+        if len(self.trace) == self.kill_at:
+            os._exit(KILL_RC)                    # the machine stops: nothing is flushed, no handler runs
+        c = SysCall(kind, [self.rel(p) for p in paths], args)
+        self.trace.append(c)
+        return c
+
+    def __enter__(self):
+        import builtins
+        import io
+        self.real_open = builtins.open
+        self.saved = {n: getattr(os, n) for n in _OS_PATCHED}
+        tr = self
+
+        def mk(name, real):
+            def patched(*a, **kw):
+                paths = [x for x in a[: 2 if name in ("rename", "replace", "link", "symlink") else 1]]
+                if not any(tr.rel(x) is not None for x in paths):
+                    return real(*a, **kw)
+                c = tr.before("unlink" if name == "remove" else name, paths, a[1:])
+                try:
+                    r = real(*a, **kw)
+                except BaseException:
+                    c.ok = False
+                    raise
+                if name in ("mkdir", "chmod"):
+                    c.mode = os.stat(a[0]).st_mode & 0o7777
+                return r
+            return patched
+        for n, real in self.saved.items():
+            setattr(os, n, mk(n, real))
+
+        def popen(file, mode="r", *a, **kw):
+            if isinstance(file, int) or tr.rel(file) is None or not any(ch in mode for ch in "wax+"):
+                return tr.real_open(file, mode, *a, **kw)
+            existed = os.path.lexists(file)
+            c = tr.before("truncate" if existed else "create", [file], (mode,))
+            try:
+                f = tr.real_open(file, mode, *a, **kw)
+            except BaseException:
+                c.ok = False
+                raise
+            c.mode = os.stat(file).st_mode & 0o7777
+            return _FileProxy(tr, f, os.fspath(file))
+        self.saved_open = (builtins.open, io.open)
+        builtins.open = popen
+        io.open = popen
+        return self
+
+    def __exit__(self, *a):
+        import builtins
+        import io
+        for n, real in self.saved.items():
+            setattr(os, n, real)
+        builtins.open, io.open = self.saved_open
+        return False
+
+
+def trace_syscalls(fn, root):
+    """run fn() in this process; -> (list[SysCall], exception or None)"""
+    exc = None
+    with SyscallTrace(root) as tr:
+        try:
+            fn()
+        except Exception as e:  # noqa: BLE001
+            exc = e
+    return tr.trace, exc
+
+
+def run_hard_kill(fn, root, k):
+    """fork; the child runs fn() and is killed (os._exit) immediately before its k-th recorded call.
+    -> child's exit code (KILL_RC: killed at k; 0: fn completed before reaching k; 3: fn raised)"""
+    pid = os.fork()
+    if pid == 0:
+        rc = 0
+        try:
+            with SyscallTrace(root, kill_at=k):
+                fn()
+        except BaseException:  # noqa: BLE001
+            rc = 3
+        finally:
+            os._exit(rc)
+    _, status = os.waitpid(pid, 0)
+    return os.waitstatus_to_exitcode(status)
+
+
+def syscall_ops(trace):
+    """the system calls that changed the tree, in the encoding of Model_C27.enc_ops"""
+    out = []
+    for c in trace:
+        if not c.ok or c.kind == "bwrite":
+            continue
+        p = [list(x) if x is not None else None for x in c.paths]
+        if c.kind in ("create", "mkdir", "chmod"):
+            out.append([c.kind, p[0], c.mode])
+        elif c.kind in ("flush", "close"):
+            if c.data:
+                if out and out[-1][0] == "write" and out[-1][1] == p[0]:
+                    out[-1][2] += c.data
+                    out[-1][3] += 1
+                else:
+                    out.append(["write", p[0], c.data, 1])
+        elif c.kind == "chown":
+            out.append(["chown", p[0], None if c.args[1] == -1 else c.args[1]])
+        elif c.kind == "rename":
+            out.append(["rename", p[0], p[1]])
+        else:
+            out.append([c.kind, p])
+    return out
+
+
+def syscalls_done(trace, k):
+    """number of tree-changing system calls among the first k recorded calls"""
+    return sum(1 for c in trace[:k] if c.ok and c.kind != "bwrite" and not (c.kind in ("flush", "close") and not c.data))
+
+
 # ------------------------------------------------------------------ crash stream
 def build_pre(impl, with_loc, files):
     impl.reset()
@@ -399,8 +623,9 @@ def _run(chk, rng, root, ok):
 
     # ---------------------------------------------------------------- ops / crash
     ops_cases, crash_cases, crash_bad = [], [], []
+    n_hkill = 0
     n_store = chk.n(6, 24)
-    per_store = chk.n(20, 10 ** 6)
+    per_store = chk.n(16, 10 ** 6)
     pid = os.getpid()
     for i in range(n_store):
         lay = "flat" if i % 2 == 0 else "md5"
@@ -437,8 +662,8 @@ def _run(chk, rng, root, ok):
         tr = run.trace
         base = (f"(mk_cc {c_lay(lay)} {cbool(with_loc)} "
                 + clist([cpair(c_path(f), cstr(t)) for f, t in files], "path * str")
-                + f" {cN(pid)} {cN(impl.gid)} {c_path(target)} {c_entry(e)} @K@)")
-        ops_cases.append((base.replace("@K@", cnat(0)), trace_ops(tr, root) if run.exc is None else Err(type(run.exc).__name__)))
+                + f" {cN(pid)} {cN(impl.gid)} {c_path(target)} {c_entry(e)} @K@ @B@)")
+        ops_cases.append((base.replace("@K@", cnat(0)).replace("@B@", "false"), trace_ops(tr, root) if run.exc is None else Err(type(run.exc).__name__)))
         n = len(tr)
         points = list(range(n + 1))
         if len(points) > per_store:
@@ -451,19 +676,51 @@ def _run(chk, rng, root, ok):
             r = fsx.run_with_fault(lambda: c.__setitem__(key, vals_of()), root, k, mode="crash")
             obs = observe(impl, lay, target, files)
             mk = sum(1 for t in tr[:k] if t.ok)
-            crash_cases.append((base.replace("@K@", cnat(mk)), obs))
+            crash_cases.append((base.replace("@K@", cnat(mk)).replace("@B@", "false"), obs))
             chk.nontrivial(("crash", i, k))
             bad = crash_oracle(old, new, obs, target, files)
             if bad:
                 crash_bad.append({"what": bad[0], "all": bad, "layout": lay, "pre_state": files,
                                   "location_exists": with_loc, "cpv": key, "entry": e,
+                                  "crash_kind": "exception inside the process before call k (writes unbuffered)",
                                   "crash_before_call": k, "call": repr(tr[k]) if k < n else "(none: store complete)",
                                   "observed": obs})
             if k == n - 1 and i < 2:
                 chk.sample({"stream": "crash", "layout": lay, "cpv": key, "crash_before_call": repr(tr[k]),
                             "read": obs[0], "keys": obs[2]})
+        # ---- the same store with its REAL buffering: system-call trace, then a hard kill
+        #      (forked child, os._exit) before every recorded call
+        build_pre(impl, with_loc, files)
+        c = impl.cache(lay)
+        htr, hexc = trace_syscalls(lambda: c.__setitem__(key, vals_of()), root)
+        hnew = observe(impl, lay, target, files)
+        ops_cases.append((base.replace("@K@", cnat(0)).replace("@B@", "true"),
+                          syscall_ops(htr) if hexc is None else Err(type(hexc).__name__)))
+        hn = len(htr)
+        for k in range(hn + 1):
+            build_pre(impl, with_loc, files)
+            c = impl.cache(lay)
+            rc = run_hard_kill(lambda: c.__setitem__(key, vals_of()), root, k)
+            obs = observe(impl, lay, target, files)
+            if rc not in (KILL_RC, 0):
+                raise AssertionError(f"hard-kill child exit code {rc} at call {k}")
+            crash_cases.append((base.replace("@K@", cnat(syscalls_done(htr, k))).replace("@B@", "true"), obs))
+            chk.nontrivial(("hkill", i, k))
+            n_hkill += 1
+            bad = crash_oracle(old, hnew, obs, target, files)
+            if bad:
+                crash_bad.append({"what": bad[0], "all": bad, "layout": lay, "pre_state": files,
+                                  "location_exists": with_loc, "cpv": key, "entry": e,
+                                  "crash_kind": "process killed (os._exit) before call k; file objects keep their real buffering",
+                                  "crash_before_call": k, "call": repr(htr[k]) if k < hn else "(none: store complete)",
+                                  "calls_of_the_store": [repr(x) for x in htr], "observed": obs})
+            if k == hn - 1 and i < 2:
+                chk.sample({"stream": "crash", "kind": "hard kill", "layout": lay, "cpv": key,
+                            "calls_of_the_store": [repr(x) for x in htr], "killed_before": repr(htr[k]),
+                            "read": obs[0], "keys": obs[2]})
     chk.count("ops", len(ops_cases))
     chk.count("crash", len(crash_cases))
+    chk.cov["hard_kill_points"] = n_hkill
 
     # ---------------------------------------------------------------- evaluate model and spec in Coq
     streams = [
@@ -508,7 +765,7 @@ def _run(chk, rng, root, ok):
                                        "input": s[0], "implementation": s[1]})
     seen_what = set()
     for b in crash_bad:
-        w = b["what"].split("'")[0][:60]
+        w = b["what"].split("'")[0][:60] + b.get("crash_kind", "")[:12]
         if w in seen_what:
             continue
         seen_what.add(w)
